@@ -440,6 +440,10 @@ pub fn worker(w: &mut Worker) {
     for base in ["false", "no", "true", "yes"] {
         pool.extend(case_variants(base));
     }
+    // the operator words are lower case only: every other spelling of them is an ordinary (truthy) value
+    for base in ["and", "or", "not"] {
+        pool.extend(case_variants(base).into_iter().filter(|v| v != base));
+    }
     for s in ["0", "1", "00", "0.0", "", " ", "off", "n", "null", "False ", " false", "é", "0 ", "-0", "nO\n", "(0)", "(false)", "(no)", "()", "(x", "x)", "f(x)", ":)", "(no", "yes)", "and)", "(or"] {
         pool.push(s.to_string());
     }
